@@ -22,6 +22,12 @@ CFG = {
             "profiles, each with a Conn.Write parked in the socket when Close is called (and at one more / thorough: every position); the "
             "written-bytes result is checked. Sessions with a slow socket Close, environment-only writes or the TCP mux (ids m...) are judged "
             "by the spec monitor only (outside the model's assumptions). "
+            "Relay gathering against a STALLED TURN server (fake transport.Net, real pion/turn client, crypto/tls, pion/dtls): turn: over udp "
+            "(allocation unanswered), turn: over tcp (connected at once / late, allocation unanswered; dial fails late), turns: over tcp "
+            "(ClientHello swallowed, at once / after a late connect; dial fails late), turns: over udp (DTLS ClientHello swallowed); "
+            "Close / GracefulClose / concurrent / repeated / from a handler at every 2nd (thorough: every) position, 2 (thorough: 25) rounds "
+            "x 8 flavour-stage pairs. Last op `coverage`: the run must have reached Connected agents, a parked Conn.Write, a full TCP queue "
+            "and a stalled TURN connection at least once. "
             "Evaluation = one operation of a session (real agents, virtual time); non-trivial = every line (each carries events and a digest).",
     "translated": [],
     "trusted_base": ["model CloseSys written by hand against agent.go / taskloop.go / candidate_base.go / agent_handlers.go / transport.go (no generated tie; "
@@ -32,5 +38,7 @@ CFG = {
                     "socket Close / SetDeadline / abortWrite do not block (M2; the harness also runs sockets whose Close is slow — monitor only); "
                     "finitely many datagrams arrive while closing (E)",
                     "a write blocked in a socket is released by the deadline, by Close, or eventually by the environment (a write that "
-                    "nothing ever releases makes Close wait forever: not generated)"],
+                    "nothing ever releases makes Close wait forever: not generated)",
+                    "transport.Net.DialTCP / proxy Dial towards a TURN server return within the bound (they take no context: Close waits "
+                    "for them — candidate finding F-C08-dial, notes/C08.md §10; dials beyond the bound are not generated)"],
 }
